@@ -168,10 +168,9 @@ var trustedLimb = append([]string{
 func init() {
 	register(&Prop{
 		ID: "C09", Level: "proof", Technique: "abstract interpretation of package field in a reduced product of intervals and integer polynomials: least inductive limb bound by fixpoint over all exported operations, machine-operation safety obligations at that bound, value congruences mod p by polynomial normal forms; exponent domain for the addition chains",
-		Explanation: "(1) The representation invariant is computed, not assumed: the least limb bound closed under every exported Element operation (Go and assembly bodies, every build configuration of the tier) — by encapsulation this covers every representation any history of public calls can produce; at that bound every machine operation is free of wrap-around/underflow, the 128-bit accumulators stay below 2^(64+13), outputs stay within the bound, and the bound is < 2^52 and within Subtract's 2p margin. (2) Add, Subtract, Negate, Multiply, Square, Mult32 and carry propagation return limbs whose value is congruent to the specification mod p, as polynomial identities in the input limbs. (3) Invert = z^(p−2) and Pow22523 = x^((p−5)/8) by exponent arithmetic over their addition chains; Absolute = Select(−u, u, IsNegative(u)); Negate = 0 − a.",
-		Assumptions: []string{"the parity/zero tests behind IsNegative/Equal read the fully reduced value (C10)"},
+		Explanation: "(1) The representation invariant is computed, not assumed: the least limb bound closed under every exported Element operation (Go and assembly bodies, every build configuration of the tier) — by encapsulation this covers every representation any history of public calls can produce; at that bound every machine operation is free of wrap-around/underflow, the 128-bit accumulators stay below 2^(64+13), outputs stay within the bound, and the bound is < 2^52 and within Subtract's 2p margin. (2) Add, Subtract, Negate, Multiply, Square, Mult32 and carry propagation return limbs whose value is congruent to the specification mod p, as polynomial identities in the input limbs. (3) Invert = z^(p−2) and Pow22523 = x^((p−5)/8) by exponent arithmetic over their addition chains; Absolute = Select(−u, u, IsNegative(u)) with IsNegative the low bit of the fully reduced encoding (the layout, predicate and reduce obligations of C10 are part of this check); Negate = 0 − a.",
 		TrustedBase: trustedLimb,
-		Floors:      []report.Floor{{Rule: "E4-INV", Min: 4}, {Rule: "E4-OBL", Min: 1}, {Rule: "E5-CONG", Min: 10}},
+		Floors:      []report.Floor{{Rule: "E4-INV", Min: 4}, {Rule: "E4-OBL", Min: 1}, {Rule: "E5-CONG", Min: 10}, {Rule: "E8-PRED", Min: 2}, {Rule: "REDUCE-FORM", Min: 1}},
 		Build: func(c *Ctx) {
 			for _, cfg := range c.Configs() {
 				res := c.ruleLimbInvariant(cfg)
@@ -179,7 +178,11 @@ func init() {
 					c.ruleCongruences(cfg, res.box)
 					// Absolute is Select(−u, u, sign): exact only if Select chooses limb for limb for every reachable limb value
 					c.ruleSelectSwap(cfg, res.box)
+					// … and only if the sign it selects on is the low bit of the fully reduced value
+					c.ruleWideAndReduce(cfg, res.box)
 				}
+				c.ruleFieldLayouts(cfg)
+				c.ruleFieldPredicates(cfg)
 				c.e9AbsoluteNegate(cfg)
 				c.ruleFieldExponents(cfg)
 				// premise of "for every history": the operations keep no state outside their operands
